@@ -47,6 +47,9 @@ Lexing / parsing
   decode_escapes(body) -> str    the escape decoding of a '...' body
 
 Evaluation
+  Positional arguments are flattened (nested arrays spliced in) for every function/method except those documented
+  with arg_flattening: false (message, set_variable, get_variable, str.format, array.contains, array.get, dict.get,
+  subproject.get_variable).
   Values are plain Python objects: int, bool, str, list, dict (insertion ordered), RefRange, RefSubproject;
   VOID (None) is "no value".  bool is never an int here (type() is used, not isinstance()).
   render(value, quote=False) -> str        how message()/format()/f-strings print a value
@@ -819,6 +822,22 @@ _DOC_BASED_RE = re.compile(r'0x[0-9a-fA-F]+\Z|0o[0-7]+\Z|0b[01]+\Z')
 _BUILTIN_OBJECTS = frozenset(['meson', 'build_machine', 'host_machine', 'target_machine'])
 
 
+# Argument flattening (Syntax.md "Argument flattening": nested arrays in the positional arguments become one flat
+# argument list) applies to every function and method except those whose reference page says arg_flattening: false.
+_NOFLATTEN_FUNCS = frozenset(['message', 'set_variable', 'get_variable', 'project'])
+_NOFLATTEN_METHODS = frozenset(['str.format', 'array.contains', 'array.get', 'dict.get', 'subproject.get_variable'])
+
+
+def _flatten_args(pos: T.List[T.Any]) -> T.List[T.Any]:
+    out: T.List[T.Any] = []
+    for x in pos:
+        if type(x) is list:
+            out += _flatten_args(x)
+        else:
+            out.append(x)
+    return out
+
+
 class _Break(Exception):
     pass
 
@@ -1254,6 +1273,8 @@ class Evaluator:
             self._args(posn, kwn)
             return VOID
         pos, kw = self._args(posn, kwn)
+        if name not in _NOFLATTEN_FUNCS:
+            pos = _flatten_args(pos)
         fn = getattr(self, '_f_' + name, None)
         if fn is None:
             raise RefRuntimeError(f'unknown function {name}')
@@ -1395,6 +1416,8 @@ class Evaluator:
             if tn == 'str' and name == 'version_compare':
                 raise RefUnspecified('version_compare belongs to the version reference (C19)')
             raise RefRuntimeError(f'{tn} has no method {name}')
+        if f'{tn}.{name}' not in _NOFLATTEN_METHODS:
+            pos = _flatten_args(pos)
         if self.max_value_len is not None and sum(len(x) for x in pos if type(x) in (str, list)) > self.max_value_len:
             raise RefUnspecified('arguments larger than the reference is willing to handle')
         return fn(obj, pos, kw)
